@@ -231,7 +231,8 @@ func (c *Ctx) genC18() {
 			}
 		}
 		// {correct, wrong, absent} x Destination, Issuer, Status, IssueInstant (guard band: the validator reads the wall clock)
-		dests := []string{sloURL, "https://evil.example.org/slo", "", sloURL + "/", strings.ToUpper(sloURL)}
+		// (the SP's own other URLs are wrong destinations for a logout response too)
+		dests := []string{sloURL, "https://evil.example.org/slo", "", sloURL + "/", strings.ToUpper(sloURL), baseCfg().Acs, baseCfg().MetadataURL, sloURL + "?x=1", strings.TrimSuffix(sloURL, "o")}
 		issuers := []*string{sp(idpEntity), sp("https://evil.example.org/idp"), nil, sp(""), sp(idpEntity + "x")}
 		stats := []string{successSt, "urn:oasis:names:tc:SAML:2.0:status:Responder", "", successSt + "x"}
 		iis := []int64{-1000, -(delay - 5000), -(delay + 5000), -3600000, 3600000, -(delay - 20000)}
